@@ -63,6 +63,27 @@ func (g *G) genFlows() {
 					"exits": []any{J{"uuid": exB, "destination_uuid": nA}}},
 			},
 		}
+		// what else the menu does on every round is drawn like any other node's actions (the same action executed
+		// again and again with the same or slowly changing values: "set it once more" is where stored and live
+		// state can disagree)
+		extra := []any{}
+		nd := &nodeDraft{uuid: nB}
+		loc := J{}
+		for k, n := 0, t.Weighted("marathon_actions", 1, 2, 2); k < n; k++ {
+			g.forceKind = []string{"set_contact_field", "set_contact_field", "set_run_result", "set_contact_name", "send_msg", "add_contact_urn", "set_contact_language", "add_contact_groups", "set_contact_timezone"}[t.Pick("marathon_action_kind", 9)]
+			a := g.genAction(f, nd, loc)
+			g.forceKind = ""
+			if a != nil {
+				nd.actions = append(nd.actions, a)
+				extra = append(extra, a)
+			}
+		}
+		if len(extra) > 0 {
+			nodes := f.Def["nodes"].([]any)
+			nb := nodes[1].(J)
+			nb["actions"] = append(nb["actions"].([]any), extra...)
+			f.Def["localization"] = loc
+		}
 		s.Marathon = true
 		s.Opt.MaxResumesPerSession = 500
 		if s.Opt.MaxStepsPerSprint < 10 {
